@@ -185,6 +185,10 @@ func c14r2(c *core.Ctx) {
 							}
 						}
 					}
+					// (re)start of the numbering: a non-zero constant stored before any id was handed out on this path
+					if k, isK := core.ConstInt(x.Val); isK && k >= 1 && len(taken) == 0 {
+						one = true
+					}
 					if !one {
 						good = false
 					}
